@@ -13,6 +13,7 @@ import (
 	"sync/atomic"
 	"time"
 
+	ecdsakeygen "github.com/bnb-chain/tss-lib/v2/ecdsa/keygen"
 	"github.com/bnb-chain/tss-lib/v2/tss"
 )
 
@@ -243,6 +244,40 @@ func c09Child(seedStr, thoroughStr string) {
 		}
 		fmt.Printf("%s start-vs-delivery/%s iterations=%d stuck=%d %s\n", status, p.name, n, bad, first)
 	}
+	// Start() against deliveries that do not parse, in all six protocols: the parties are only started (nothing
+	// genuine is delivered) while several goroutines per party hand it unparsable bytes; the error path of every
+	// UpdateFromBytes reads the party's round and must do so under its lock
+	sprs := append([]pr{}, prs...)
+	sprs = append(sprs, pr{"ecdsa-resharing", func(s int64) *Net {
+		keys := make([]ecdsakeygen.LocalPartySaveData, 3)
+		for i := range keys {
+			keys[i] = eks.keys[i]
+			keys[i].Xi = new(big.Int).Set(eks.keys[i].Xi)
+		}
+		return ecdsaResharingNet(rand.New(rand.NewSource(s)), keys, eks.pids[:3], eks.t, makePIDs([]*big.Int{big.NewInt(7101), big.NewInt(7102), big.NewInt(7103)}, "N"), 1, false, 0)
+	}})
+	if !thorough {
+		sprs = append(sprs, pr{"ecdsa-keygen", func(s int64) *Net {
+			return ecdsaKeygenNet(rand.New(rand.NewSource(s)), 2, 1, partyKeys(rng, 2, 0, tss.S256().Params().N), 0)
+		}})
+	}
+	for _, p := range sprs {
+		n := 3
+		if thorough {
+			n = 10
+		}
+		bad := 0
+		for k := 0; k < n; k++ {
+			if !startVsGarbage(p.build(seed*3000+int64(k)), seed*17+int64(k)) {
+				bad++
+			}
+		}
+		status := "PASS"
+		if bad > 0 {
+			status = "FAIL"
+		}
+		fmt.Printf("%s start-vs-garbage/%s iterations=%d failed=%d\n", status, p.name, n, bad)
+	}
 	reps := 6
 	if thorough {
 		reps = 24
@@ -415,4 +450,61 @@ func runC09(r *Run, rng *rand.Rand, thorough bool) {
 			r.Assert(false, "concurrent/child-failed", "concurrent-harness-runs", func() string { return err.Error() + " " + errb.String()[:min(len(errb.String()), 1500)] })
 		}
 	}
+}
+
+// startVsGarbage: every party is started from its own goroutine while three other goroutines per party hand it bytes that
+// do not parse (each such call must come back with an error, never crash); nothing genuine is delivered
+func startVsGarbage(net *Net, seed int64) bool {
+	yield := func(r *rand.Rand) {
+		for k := r.Intn(4); k > 0; k-- {
+			runtime.Gosched()
+		}
+	}
+	var wg sync.WaitGroup
+	stop := make(chan struct{})
+	var crashed int64
+	for i := range net.Nodes {
+		go func(i int) { // drain the out channel so that Start() never blocks
+			for {
+				select {
+				case <-net.Nodes[i].Out:
+				case <-stop:
+					return
+				}
+			}
+		}(i)
+		for k := 0; k < 3; k++ {
+			wg.Add(1)
+			go func(i, k int) {
+				defer wg.Done()
+				defer func() {
+					if e := recover(); e != nil {
+						atomic.AddInt64(&crashed, 1)
+					}
+				}()
+				r := rand.New(rand.NewSource(seed + int64(100*i+k)))
+				for c := 0; c < 40; c++ {
+					if _, err := net.Nodes[i].Party.UpdateFromBytes(randBytes(r, 1+r.Intn(40)), net.Nodes[(i+1)%len(net.Nodes)].ID, r.Intn(2) == 0); err == nil {
+						atomic.AddInt64(&crashed, 1)
+					}
+					yield(r)
+				}
+			}(i, k)
+		}
+		wg.Add(1)
+		go func(i int) {
+			defer wg.Done()
+			defer func() {
+				if e := recover(); e != nil {
+					atomic.AddInt64(&crashed, 1)
+				}
+			}()
+			r := rand.New(rand.NewSource(seed + int64(5000+i)))
+			yield(r)
+			_ = net.Nodes[i].Party.Start()
+		}(i)
+	}
+	wg.Wait()
+	close(stop)
+	return atomic.LoadInt64(&crashed) == 0
 }
